@@ -202,10 +202,11 @@ func runPair(p Pair) result { //nolint:cyclop,gocognit
 	lossy := p.Workload == "loss" || p.Workload == "loss-with-feedback"
 	sentTotal := int64(0)
 	churnSSRC := uint32(0x100000)
+	churnEvery := kit.EnvInt("VERIF_C12_CHURN_EVERY", 1000) // a batch of 100 short-lived stream pairs every so many packets
 	for ph := 0; ph < p.Phases; ph++ {
 		for i := 0; i < p.PerPhase; i++ {
-			if p.Workload == "stream-churn" && i%250 == 0 {
-				// a batch of 100 short-lived pairs of streams with SSRCs never used before: bound together, 4 packets each way with a gap and
+			if p.Workload == "stream-churn" && i%churnEvery == 0 {
+				// a batch of 50 (thorough: 100) short-lived pairs of streams with SSRCs never used before: bound together, 4 packets each way with a gap and
 				// feedback about them while report / NACK ticks run over all of them, then unbound one after the other while ticks go on.
 				// Memory may depend on the streams bound at the moment, not on how many have come and gone.
 				type churned struct {
@@ -214,7 +215,7 @@ func runPair(p Pair) result { //nolint:cyclop,gocognit
 					r      interceptor.RTPReader
 					src    *kit.ByteSource
 				}
-				batch := make([]*churned, 100)
+				batch := make([]*churned, kit.EnvInt("VERIF_C12_CHURN_BATCH", 50))
 				for j := range batch {
 					churnSSRC += 2
 					c := &churned{li: kit.LocalInfo(churnSSRC, tw, true, true), ri: kit.RemoteInfo(churnSSRC+1, tw), src: &kit.ByteSource{}}
@@ -380,7 +381,7 @@ func TestMemoryBounded(t *testing.T) {
 	phases, per := kit.EnvInt("VERIF_C12_PHASES", 4), kit.EnvInt("VERIF_C12_PER_PHASE", 15000)
 	shard, nshards := kit.Shard()
 	rec := kit.NewRecorder("C12", "memory-phases",
-		fmt.Sprintf("every interceptor x workload {in-order, 5%% loss, 5%% duplicates, reordering, with periodic feedback, loss with feedback, retransmissions with lagging RFC 8888 feedback, 121 streams each way, 100 short-lived stream pairs bound, used and unbound every 250 packets}: %d equal phases of %d packets each way; heap and object "+
+		fmt.Sprintf("every interceptor x workload {in-order, 5%% loss, 5%% duplicates, reordering, with periodic feedback, loss with feedback, retransmissions with lagging RFC 8888 feedback, 121 streams each way, 50 short-lived stream pairs bound, used and unbound every 1000 packets (thorough: 100 every 5000)}: %d equal phases of %d packets each way; heap and object "+
 			"count after two forced GCs at each phase boundary; growth over the last phases must stay below max(32 KiB, 0.5%%) / 200 objects, and the heap must return to the baseline after Unbind/Close; "+
 			"non-trivial = the interceptor keeps per-packet state; distinct by (interceptor, workload, seed)", phases, per))
 	idx := 0
